@@ -23,7 +23,9 @@ import (
 	"runtime/debug"
 	"sort"
 	"strings"
+	"sync"
 	"testing"
+	"time"
 
 	"github.com/robustirc/robustirc/internal/outputstream/vsync"
 	"github.com/robustirc/robustirc/internal/robust"
@@ -407,7 +409,7 @@ func (r *vfRun) execute(choose vfChooser) {
 	r.threads = nil
 	for i, ops := range r.prog.Threads {
 		th := &vfThread{id: i + 1, ops: ops}
-		th.ctx, th.cancel = context.WithCancel(context.Background())
+		th.ctx, th.cancel = vfNewCtx(th.id)
 		r.threads = append(r.threads, th)
 	}
 	for _, th := range r.threads {
@@ -590,6 +592,34 @@ func vfProbeInterrupt(t *testing.T) bool {
 	o.db.Close()
 	o.db = nil
 	return locked
+}
+
+// vfDeadlineCtx is a context that ends the way a deadline context does: Done() is closed and Err() is
+// context.DeadlineExceeded (not context.Canceled). GetNext must react to Done(), whatever the reason.
+type vfDeadlineCtx struct {
+	context.Context
+	done chan struct{}
+}
+
+func (c *vfDeadlineCtx) Done() <-chan struct{} { return c.done }
+func (c *vfDeadlineCtx) Err() error {
+	select {
+	case <-c.done:
+		return context.DeadlineExceeded
+	default:
+		return nil
+	}
+}
+func (c *vfDeadlineCtx) Deadline() (time.Time, bool) { return time.Unix(1, 0), true }
+
+// vfNewCtx: even thread numbers get a cancel context, odd ones one that ends like a deadline.
+func vfNewCtx(k int) (context.Context, context.CancelFunc) {
+	if k%2 == 0 {
+		return context.WithCancel(context.Background())
+	}
+	c := &vfDeadlineCtx{Context: context.Background(), done: make(chan struct{})}
+	var once sync.Once
+	return c, func() { once.Do(func() { close(c.done) }) }
 }
 
 func TestVerifC08Sched(t *testing.T) {
